@@ -47,6 +47,12 @@ type UEChoice struct {
 	// ForbiddenTACs: when a Mobility Restriction List is sent it forbids this many tracking areas of the serving
 	// PLMN (TS 38.413 9.3.1.85: up to 4096 per PLMN); a few hundred make the message 1..2 kilobytes long
 	ForbiddenTACs int `json:"forbidden_tacs,omitempty"`
+	// Refuse: how the network answers this UE's PDU session establishment request. "" = the session is granted;
+	// "reject" = the SMF rejects it (PDU SESSION ESTABLISHMENT REJECT, 5GSM cause #26, in a DL NAS TRANSPORT): the
+	// UE has no session; "congestion" = the AMF cannot forward the request now (TS 24.501 5.4.5.3.1: DL NAS TRANSPORT
+	// returning the payload container with 5GMM cause #22 and a back-off timer); should the request arrive again it
+	// is treated like any uplink message (a resent copy of the protected message reuses its NAS COUNT)
+	Refuse string `json:"refuse,omitempty"`
 }
 
 // Optional downlink information elements, placed where TS 38.413 allows them.
